@@ -1,16 +1,26 @@
 ------------------------------ MODULE QhaModel ------------------------------
-(* Exhaustive model run of Qha.tla on inputs enumerated by TLC itself:        *)
-(* every temperature grid with 1..MaxN points and steps from Steps (all step  *)
-(* patterns, so every mixture of locally uniform and non-uniform stencils),   *)
-(* every t_max on a 5 K raster from below the first to beyond the last        *)
-(* temperature (on-grid, between, exact ties) or none, both electronic shapes,*)
-(* pressure none / zero / positive / negative, quadratic V0(T), cubic E0(T).  *)
+(* Exhaustive model runs of Qha.tla on inputs enumerated by TLC itself.        *)
+(*                                                                            *)
+(* ModelInputs: every temperature grid with 1..MaxN points and steps from     *)
+(* Steps (all step patterns, so every mixture of locally uniform and non-     *)
+(* uniform stencils), every t_max on a 5 K raster from below the first to     *)
+(* beyond the last temperature (on-grid, between, exact ties) or none, both   *)
+(* electronic shapes, pressure none / zero / positive / negative, quadratic   *)
+(* V0(T), cubic E0(T); all fits converge.                                     *)
+(* FailInputs: uniform grids with 2..4 points, EVERY assignment of fit        *)
+(* outcomes (ok / not converged / RuntimeError / TypeError) to the            *)
+(* temperatures, and every outcome of the BulkModulus fit.                    *)
+(* DegenerateInputs: EVERY temperature sequence of length 1..3 over           *)
+(* {0, 10, 20} (descending, repeated, ...), 1/3/4/5/7 distinct volumes,       *)
+(* integer or float number types, electronic (T,V) tables with fewer, as many *)
+(* or more rows than temperatures.                                            *)
 (* Decides on the specification: index safety of every loop and stencil, the  *)
-(* length rule, completion for >= 2 temperatures, per-temperature electronic  *)
-(* rows, +PV, recovery, exactness of the finite differences, units.           *)
+(* length rule, refusal of invalid input, completion of valid input, failed   *)
+(* fits never silently replaced, per-temperature electronic rows, +PV,        *)
+(* recovery, exactness of the finite differences, units.                      *)
 EXTENDS Qha
 
-CONSTANTS MaxN, Steps, ShapeSel, PressureSel
+CONSTANTS MaxN, Steps, ShapeSel, PressureSel, FailN, DegLen, NvdSel
 
 RECURSIVE Grids(_)
 Grids(n) == IF n = 1 THEN {<<0>>, <<10>>}
@@ -18,17 +28,22 @@ Grids(n) == IF n = 1 THEN {<<0>>, <<10>>}
 
 VPoly == <<RInt(40), <<1, 100>>, <<1, 10000>>>>
 EPoly == <<RInt(-10), <<-1, 1000>>, <<-1, 100000>>, <<-1, 1000000>>>>
+AllOkPlan(n) == [i \in 1..n |-> "ok"]
 
-MkInput(T, tm, shape, P) ==
+MkInputX(T, tm, shape, P, nvd, eld, vold, nq, fplan, bplan) ==
   [id |-> 0, T |-> T, tmax |-> tm, shape |-> shape, eos |-> "vinet", P |-> P,
    ptab |-> [k \in 1..Len(T) |-> [E0 |-> PolyEval(EPoly, RInt(T[k])), B0 |-> Rat(100 - T[k] \div 10, 100),
                                   Bp |-> RInt(4), V0 |-> PolyEval(VPoly, RInt(T[k]))]],
-   qtab |-> [j \in 1..(IF shape = "TV" THEN Len(T) ELSE 1) |->
-               [E0 |-> Rat(-72 + j, 8), B0 |-> <<3, 5>>, Bp |-> <<9, 2>>, V0 |-> Rat(390 + j, 10)]],
+   qtab |-> [j \in 1..nq |-> [E0 |-> Rat(-72 + j, 8), B0 |-> <<3, 5>>, Bp |-> <<9, 2>>, V0 |-> Rat(390 + j, 10)]],
    poly |-> [set |-> TRUE, v |-> VPoly, e |-> EPoly],
-   cvtab |-> [k \in 1..Len(T) |-> <<RInt(20 + k), <<1, 10>>, <<1, 100>>>>],
+   cvtab |-> [k \in 1..Len(T) |-> IF k = 2 THEN <<R0, R0, R0>> ELSE <<RInt(20 + k), <<1, 10>>, <<1, 100>>>>],
    stab |-> [k \in 1..Len(T) |-> <<RInt(10 + k), <<1, 2>>, <<-1, 100>>>>],
-   vref |-> 40]
+   vref |-> 40, nvd |-> nvd, eldtype |-> eld, voldtype |-> vold, elcurve |-> eld = "float", wf |-> FALSE,
+   fitplan |-> fplan, bmplan |-> bplan]
+
+NQ(T, shape) == IF shape = "TV" THEN Len(T) ELSE 1
+MkInput(T, tm, shape, P) ==
+  MkInputX(T, tm, shape, P, 7, "float", "float", NQ(T, shape), AllOkPlan(Len(T)), AllOkPlan(NQ(T, shape)))
 
 TMaxes(T) == {[set |-> FALSE, v |-> 0]} \cup
              {[set |-> TRUE, v |-> 5 * m] : m \in ((T[1] \div 5) - 1)..((T[Len(T)] \div 5) + 1)}
@@ -40,4 +55,23 @@ SomePressures == {[set |-> FALSE, v |-> R0], [set |-> TRUE, v |-> RInt(2)]}
 ModelInputs ==
   UNION {{MkInput(T, tm, sh, P) : tm \in TMaxes(T), sh \in ShapeSel, P \in PressureSel} :
          T \in UNION {Grids(n) : n \in 1..MaxN}}
+
+UniformGrid(n) == [k \in 1..n |-> 10 * (k - 1)]
+P2 == [set |-> TRUE, v |-> RInt(2)]
+FailInputs ==
+  UNION {
+    {MkInputX(UniformGrid(n), tm, sh, P2, 7, "float", "float", NQ(UniformGrid(n), sh), fp, AllOkPlan(NQ(UniformGrid(n), sh))) :
+        tm \in {[set |-> FALSE, v |-> 0], [set |-> TRUE, v |-> 10]}, sh \in {"V", "TV"}, fp \in [1..n -> Plans]}
+    \cup
+    {MkInputX(UniformGrid(n), [set |-> FALSE, v |-> 0], "V", P2, 7, "float", "float", 1, AllOkPlan(n), <<b>>) : b \in Plans}
+    : n \in 2..FailN}
+
+SmallSeqs == UNION {[1..n -> {0, 10, 20}] : n \in 1..DegLen}
+DegenerateInputs ==
+  {MkInputX(T, [set |-> FALSE, v |-> 0], sh, P, nvd, eld, vold,
+            IF sh = "TV" THEN (IF Len(T) + dq >= 1 THEN Len(T) + dq ELSE 1) ELSE 1, AllOkPlan(Len(T)),
+            AllOkPlan(IF sh = "TV" THEN (IF Len(T) + dq >= 1 THEN Len(T) + dq ELSE 1) ELSE 1)) :
+     T \in SmallSeqs, sh \in {"V", "TV"}, P \in SomePressures, nvd \in NvdSel,
+     eld \in {"float", "int"}, vold \in {"float", "int"}, dq \in {-1, 0, 1}}
+AllInputs == ModelInputs \cup FailInputs \cup DegenerateInputs
 =============================================================================
